@@ -836,7 +836,8 @@ func runC16(c *Ctx) {
 	}
 
 	// ---------------------------------------------------------------- R2
-	c.rule("R2", "every stream reader uses the frame reader", 4)
+	c.rule("R2", "every stream reader uses the frame reader; after a framing error the stream is not read again; no length cap besides the minimum; no per-frame buffering wrapper", 10)
+	checkFrameDiscipline(c)
 	// after a read / framing error the stream servers stop reading that connection (the stream position is unknown)
 	// frame readers: the two dnsutils readers and every server function that wraps one of them and hands its error back
 	// (readQueryFromStream since D48) — the obligation then also holds at the wrapper's call sites
